@@ -413,7 +413,119 @@ def r11g(ctx):
               detail, key_detail="table slice")
 
 
+def r11h(ctx):
+    """key -> column protocol of the metadata tables: the writer stores a value in the column whose position in attrs['keys'] is that key
+    (appending the key and growing the key axis when new); the reader maps keys to positions from the same attribute and indexes the last axis."""
+    from ..core.astutil import canon
+    repo = ctx.repo
+    ctx.rule("R11h", "metadata key->column protocol: writer column = position of the key in attrs['keys'] (appended if new, key axis resized), key axis is the last axis; "
+             "reader builds {key: position} from the same attribute and indexes the last axis with it", expected=10, kind="S")
+    wm = repo.member(W, "_write_metadata")
+    c = f"{W}._write_metadata"
+    arms = [n for n in ast.walk(wm) if isinstance(n, ast.If) and u(n.test) in ("val_type == 'string'", "val_type == 'float'") and any(isinstance(x, ast.For) for x in n.body)]
+    bodies = {}
+    for n in arms:
+        ds = "str_data" if "string" in u(n.test) else "float_data"
+        bodies[ds] = canon(n.body)
+    ok = set(bodies) == {"str_data", "float_data"} and [t.replace("str_data", "D") for t in bodies["str_data"]] == [t.replace("float_data", "D") for t in bodies["float_data"]]
+    ctx.check(ok, "R11h", c, "string and float values go through the same key search / append / store sequence on their own table (sibling arms)", "", key_detail="type arms clone",
+              loc=ctx.loc("pyrex.io", wm))
+    for n in arms:
+        ds = "str_data" if "string" in u(n.test) else "float_data"
+        loops = [x for x in n.body if isinstance(x, ast.For)]
+        ok = len(loops) == 1 and u(loops[0].iter) == f"enumerate({ds}.attrs['keys'])"
+        if ok:
+            lp = loops[0]
+            j = lp.target.elts[0].id
+            m = lp.target.elts[1].id
+            t = [x for x in lp.body if isinstance(x, ast.If)]
+            ok = len(t) == 1 and u(t[0].test) in (f"self._decode_attr({m}) == key", f"key == self._decode_attr({m})") and isinstance(t[0].body[-1], ast.Break)
+            els = [u(x) for x in lp.orelse]
+            ok = ok and els == [f"{j} = len({ds}.attrs['keys'])", f"{ds}.attrs['keys'] = list({ds}.attrs['keys']) + [self._encode_attr(key)]", f"{ds}.resize({j} + 1, axis=data_axis)"]
+            wv = [x for x in n.body if isinstance(x, ast.Expr) and is_call(x.value, func="write_value")]
+            ok = ok and len(wv) == 1 and [u(a) for a in wv[0].value.args] == ["val", ds, j, "i", "index"]
+        ctx.check(ok, "R11h", c, f"[{ds}] the column is the position of the key in attrs['keys']; a new key is appended, the key axis grows by one, and the value is stored at that column",
+                  "", key_detail=f"{ds} key search")
+    # write_value arms: key index last, data_axis = position of the key axis
+    chain = [n for n in strip_doc_(wm) if isinstance(n, ast.If) and isinstance(n.test, ast.Compare) and u(n.test.left) == "name" and loc_key(n.test.comparators[0])]
+    want = {"file_meta": (0, "dataset[indices[0]]"), "particles_meta": (1, "dataset[indices[1] + indices[2], indices[0]]"), "antennas_meta": (1, "dataset[indices[1], indices[0]]"),
+            "rays_meta": (2, "dataset[indices[2], indices[1], indices[0]]")}
+    got = {}
+    cur = chain[0] if chain else None
+    while cur is not None and isinstance(cur, ast.If):
+        k = loc_key(cur.test.comparators[0]) if isinstance(cur.test, ast.Compare) and u(cur.test.left) == "name" else None
+        if k:
+            ax = [x for x in cur.body if isinstance(x, ast.Assign) and u(x.targets[0]) == "data_axis"]
+            fd = [x for x in cur.body if isinstance(x, ast.FunctionDef) and x.name == "write_value"]
+            st = [u(x.targets[0]) for x in ast.walk(fd[0]) if isinstance(x, ast.Assign)] if fd else []
+            got[k] = (int(u(ax[0].value)) if ax and u(ax[0].value).isdigit() else None, st[0] if len(st) == 1 else None)
+        cur = cur.orelse[0] if len(cur.orelse) == 1 and isinstance(cur.orelse[0], ast.If) else None
+    ctx.check(got == want, "R11h", c, "per table: the key is the last index of the store and data_axis is the position of that axis (particles: [start + i, key]; rays: [row, antenna, key])",
+              str(got), key_detail="store layout")
+    gk = repo.member("pyrex.io.HDF5Base", "_get_keys_dict")
+    r = [x for x in returns(gk) if isinstance(x.value, ast.DictComp)]
+    ok = len(r) == 1 and canon([ast.Expr(value=r[0].value)]) == canon_src_("{self._decode_attr(key): i for i, key in enumerate(file[group].attrs['keys'])}")
+    ctx.check(ok, "R11h", "pyrex.io.HDF5Base._get_keys_dict", "the reader's key table is {decoded key: position in attrs['keys']}", u(r[0].value) if r else "", key_detail="keys dict")
+    rm = repo.member("pyrex.io.HDF5Base", "_read_metadata_to_dicts")
+    inner = [x for x in ast.walk(rm) if isinstance(x, ast.FunctionDef) and x is not rm]
+    ok = len(inner) == 1
+    if ok:
+        loops = [x for x in ast.walk(inner[0]) if isinstance(x, ast.For)]
+        pairs = sorted((u(x.iter), u(x.body[0])) for x in loops)
+        ok = pairs == sorted([("enumerate(str_keys)", "meta_dict[key] = self._decode_string_data(str_data[j])"), ("enumerate(float_keys)", "meta_dict[key] = float_data[j]")])
+        ok = ok and "key_dim = -1" in [u(x) for x in strip_doc_(rm)]
+    ctx.check(ok, "R11h", "pyrex.io.HDF5Base._read_metadata_to_dicts", "dictionaries are built by pairing the j-th key with the j-th entry of the last (key) axis", "", key_detail="dict construction")
+    for m, table, nd in (("get_particle_info", "particles_meta", 2), ("get_rays_info", "rays_meta", 3)):
+        fn = repo.member(IT_, m)
+        kl = [c_ for c_ in ast.walk(fn) if is_call(c_, name="_read_metadata_to_dicts", recv="self")]
+        ok = len(kl) == 1
+        if ok:
+            kw = {k: u(v) for k, v in kwargs_of(kl[0]).items()}
+            ok = kw.get("name") == f"'{table}'" and kw.get("index") == "self._iter_counter" and kw.get("data") == "self._data" \
+                and kw.get("str_keys") == f"[item[0] for item in sorted(self._keys['{table}_str'].items(), key=lambda x: x[1])]" \
+                and kw.get("float_keys") == f"[item[0] for item in sorted(self._keys['{table}_float'].items(), key=lambda x: x[1])]"
+        ctx.check(ok, "R11h", f"{IT_}.{m}", "whole-event read passes the key lists ordered by their stored positions, for this event's chunk entry", "", key_detail="ordered key lists")
+        subs = [x for x in ast.walk(fn) if isinstance(x, ast.Subscript) and u(x.value) in ("float_data", "str_data") and isinstance(x.slice, ast.Tuple)]
+        ok = bool(subs) and all(len(x.slice.elts) == nd and all(u(e) == ":" for e in x.slice.elts[:-1]) and u(x.slice.elts[-1]).startswith(("index", "value")) for x in subs)
+        idx = [x for x in ast.walk(fn) if isinstance(x, ast.Assign) and u(x.targets[0]) == "index"]
+        ok = ok and all(u(x.value).startswith(f"self._keys['{table}_") for x in idx) and idx
+        ctx.check(ok, "R11h", f"{IT_}.{m}", f"single attributes are read from the last of {nd} axes at the position stored for that key", str([u(x)[:40] for x in subs][:4]), key_detail="attribute column")
+    tc = repo.member(IT_, "get_triggered_components")
+    r = returns(tc)
+    ok = any(isinstance(x.value, ast.ListComp) and u(x.value) == "[key for key, val in self._keys['mc_triggers'].items() if triggers[val]]" for x in r)
+    ctx.check(ok, "R11h", f"{IT_}.get_triggered_components", "a component is reported iff the flag in its own key column is set", "", key_detail="trigger columns")
+    # what the writer stores for rays: one metadata dict per antenna per wave, written at row start_index + i
+    wr = repo.member(W, "_write_ray_data")
+    cm = [c_ for c_ in ast.walk(wr) if is_call(c_, func="self._write_metadata")]
+    ok = len(cm) == 1 and [u(a) for a in cm[0].args] == ["self._data_locs['rays_meta']", "ray_metadata", "start_index + i"]
+    lp = parent(parent(cm[0])) if cm else None
+    ok = ok and isinstance(lp, ast.For) and u(lp.iter) == "range(max_waves)"
+    inner = [x for x in ast.walk(wr) if isinstance(x, ast.For) and u(x.iter) == "zip(ray_paths, polarizations)"]
+    ok = ok and len(inner) == 1 and "if i < len(paths):" in u(inner[0]) and "ray_metadata.append({})" in u(inner[0])
+    ctx.check(ok, "R11h", f"{W}._write_ray_data", "wave i of the event is written as one row (start + i) holding one dictionary per antenna, empty where the antenna has fewer rays", "",
+              key_detail="ray rows")
+
+
+IT_ = "pyrex.io.EventIterator"
+
+
+def strip_doc_(fn):
+    from ..core.astutil import strip_doc
+    return strip_doc(fn)
+
+
+def canon_src_(src):
+    from ..core.astutil import canon_src
+    return canon_src(src)
+
+
+def returns(fn):
+    from ..core.astutil import returns as r_
+    return r_(fn)
+
+
 def run(ctx):
+    ctx.guard(r11h)
     ctx.guard(r11a)
     ctx.guard(r11b)
     ctx.guard(r11c)
@@ -424,6 +536,11 @@ def run(ctx):
 
 SELFTEST = {
     "faults": [
+        {"name": "float key stored at the string table's column", "file": "pyrex/io.py", "old": "                    write_value(val, float_data, j, i, index)", "new": "                    write_value(val, float_data, i, j, index)",
+         "rule": "R11h"},
+        {"name": "particle rows ignore the start index", "file": "pyrex/io.py", "old": "                dataset[indices[1]+indices[2], indices[0]] = value", "new": "                dataset[indices[1], indices[0]] = value",
+         "rule": "R11h"},
+        {"name": "reader key table off by one", "file": "pyrex/io.py", "old": "            return {self._decode_attr(key): i\n", "new": "            return {self._decode_attr(key): i+1\n", "rule": "R11h"},
         {"name": "start_index read after the increment", "file": "pyrex/io.py",
          "old": "        start_index = self._counters['waveforms']\n        self._counters['waveforms'] += max_waves\n",
          "new": "        self._counters['waveforms'] += max_waves\n        start_index = self._counters['waveforms']\n", "rule": "R11a", "construct": "_write_waveforms"},
